@@ -9,6 +9,7 @@ import (
 	"encoding/json"
 	"fmt"
 	"io/ioutil"
+	"math/big"
 	"os"
 	"path/filepath"
 )
@@ -212,4 +213,42 @@ func SelfTestSM2() error {
 		}
 	}
 	return nil
+}
+
+// RareNonce is a nonce k whose affine x([k]G) lies in a class that exploration cannot reach (about
+// 2^-31 of all nonces): Class "hi" means x >= 2^256 - 2^225 (so that e + x can reach 2n for digests
+// close to 2^256), "lo" means x < 2^226. They were found once by a batched search
+// (tools/fixturegen/rare_nonce_search_test.go.txt). LoadRareNonces re-derives x with the reference
+// model (plain BaseMul, not the windowed one) and drops nothing silently: a mismatch is an error.
+type RareNonce struct {
+	K, X, Class string
+}
+
+func LoadRareNonces() ([]RareNonce, error) {
+	var v []RareNonce
+	if err := load("sm2_rare_nonces.json", &v); err != nil {
+		return nil, err
+	}
+	hiBound := new(big.Int).Sub(new(big.Int).Lsh(big.NewInt(1), 256), new(big.Int).Lsh(big.NewInt(1), 225))
+	loBound := new(big.Int).Lsh(big.NewInt(1), 226)
+	for i, rn := range v {
+		k := hexInt(rn.K)
+		p := BaseMul(k)
+		if p.Inf || hex.EncodeToString(B32(p.X)) != rn.X {
+			return nil, fmt.Errorf("rare nonce fixture %d: x([k]G) by the model is not the recorded x", i)
+		}
+		switch rn.Class {
+		case "hi":
+			if p.X.Cmp(hiBound) < 0 {
+				return nil, fmt.Errorf("rare nonce fixture %d is not in class hi", i)
+			}
+		case "lo":
+			if p.X.Cmp(loBound) >= 0 {
+				return nil, fmt.Errorf("rare nonce fixture %d is not in class lo", i)
+			}
+		default:
+			return nil, fmt.Errorf("rare nonce fixture %d: unknown class", i)
+		}
+	}
+	return v, nil
 }
